@@ -69,7 +69,11 @@ func boundOK(scheme, s string) bool {
 	}
 	if scheme == "npm" || scheme == "generic" || scheme == "cargo" {
 		// wildcard-looking texts are a different construct in the native syntax
-		for _, part := range strings.Split(s, ".") {
+		core := s
+		if i := strings.IndexAny(core, "-+"); i >= 0 {
+			core = core[:i]
+		}
+		for _, part := range strings.Split(core, ".") {
 			if part == "x" || part == "X" || part == "*" {
 				return false
 			}
